@@ -75,6 +75,26 @@ InvTofK == k = 3 => /\ TofKAgrees(c, O)
 \* the rebinning is a function of the input BIN (it cannot separate pairs that the input merged), and the
 \* memo table agrees with the definition
 InvMapDef == k = 3 => \A b \in DOMAIN mapT : mapT[b] = NoBin \/ (mapT[b] \in AllBinsWide(O))
+\* --- beyond the property: inverse_SSRB, extend_segment, downsample_scanner (functions of the input geometry only)
+C3Direct(cc) == [cc EXCEPT !.span = 1, !.maxDelta = 0, !.minSeg = 0, !.maxSeg = 0]
+C3Span3(cc) == [cc EXCEPT !.span = 3, !.maxDelta = 1, !.minSeg = 0, !.maxSeg = 0]
+\* inverse_SSRB is the transpose of SSRB on the geometry SSRB constructs; direct sinograms (uncompressed or span 3) give every
+\* oblique sinogram the same m or a half-way position
+InvInverse == k = 2 =>
+  /\ (SSRBLegal(c, AllIntoOne(c)) => InvAdjoint(c) /\ InvUnity(c, SSRBGeom(c, AllIntoOne(c))))
+  /\ InvUnity(c, C3Direct(c))
+  /\ (c.R >= 2 => InvUnity(c, C3Span3(c)))
+\* extend_segment: elements inside the data are their own source; every source is inside the data; two half turns are the identity
+InvExtend == k = 2 =>
+  LET d == [minAx |-> 0, maxAx |-> NumAx(c, 0) - 1, nv |-> NumViews(c), minT |-> c.minTang, maxT |-> c.maxTang] IN
+  \A a \in (-2)..(d.maxAx + 2) : \A v \in (-(d.nv))..(2 * d.nv - 1) : \A t \in (d.minT - 2)..(d.maxT + 2) :
+     LET x == ExtSource(d, a, v, t) IN
+     /\ x[1] \in d.minAx..d.maxAx /\ x[2] \in 0..(d.nv - 1) /\ x[3] \in d.minT..d.maxT
+     /\ ((a \in d.minAx..d.maxAx /\ v \in 0..(d.nv - 1) /\ t \in d.minT..d.maxT) => x = <<a, v, t>>)
+     /\ (d.minT = -d.maxT => ExtSource(d, x[1], x[2] + d.nv, -x[3]) = x)
+\* downsample_scanner: the template of the downsampled scanner is a legal uncompressed geometry
+InvDownsample == k = 2 => \A nr \in 2..4 : \A nn \in {4, 8, 10} : LegalButTang(DownsampleGeom(c, nr, nn))
+
 \* vacuity guards: these two MUST be refuted (MC_Rebin_vac*.cfg) - some pair is covered by both geometries and mapped,
 \* and some legal parameter set leaves nothing out
 InvNeverCovered == k = 3 => \A x \in AllPairsT(c) : ~(Covered(c, binI[x]) /\ Covered(O, binO[x]) /\ binO[x].seg # 0 /\ p.segComb > 1 /\ p.viewComb > 1)
